@@ -1042,3 +1042,154 @@ Proof.
   - assert (E : (i - j =? 1) = true) by (apply Nat.eqb_eq; lia). rewrite E. reflexivity.
   - assert (E : (i - j =? 1) = false) by (apply Nat.eqb_neq; lia). rewrite E. reflexivity.
 Qed.
+
+(* ------------------------------------------------------------------ *)
+(* partial trace of a Kronecker product *)
+Require Import Ring.
+
+Section ProductTheorem.
+  Variable C : Type.
+  Variables c0 c1 : C.
+  Variables cadd cmul : C -> C -> C.
+  Hypothesis SR : semi_ring_theory c0 c1 cadd cmul (@eq C).
+  Add Ring CRing : SR.
+
+  Notation sum_upto := (sum_upto C c0 cadd).
+  Notation mat := (mat C).
+  Notation kron_list := (kron_list C c1 cmul).
+  Notation tr_list := (tr_list C c0 c1 cadd cmul).
+
+  Let add_comm := SRadd_comm SR.
+  Let add_assoc := SRadd_assoc SR.
+  Let add_0_l := SRadd_0_l SR.
+
+  Lemma sum_mul_l : forall n k f, sum_upto n (fun i => cmul k (f i)) = cmul k (sum_upto n f).
+  Proof. induction n as [|n IH]; intros k f; simpl; [ring|]. rewrite IH. ring. Qed.
+
+  Lemma sum_upto_plus : forall a b h,
+    sum_upto (a + b) h = cadd (sum_upto a h) (sum_upto b (fun i => h (a + i))).
+  Proof.
+    intros a b h. induction b as [|b IH]; simpl.
+    - rewrite Nat.add_0_r. ring.
+    - rewrite Nat.add_succ_r. simpl. rewrite IH. ring.
+  Qed.
+
+  (* a sum over a two-digit mixed-radix range factorises *)
+  Lemma sum_split : forall P d f g, 0 < P ->
+    sum_upto (d * P) (fun tau => cmul (f (tau / P)) (g (tau mod P))) =
+    cmul (sum_upto d f) (sum_upto P g).
+  Proof.
+    intros P d f g HP. induction d as [|d IH]; simpl; [ring|].
+    rewrite Nat.add_comm, sum_upto_plus, IH.
+    rewrite (sum_upto_ext C c0 cadd P
+               (fun i => cmul (f ((d * P + i) / P)) (g ((d * P + i) mod P)))
+               (fun u => cmul (f d) (g u))).
+    - rewrite sum_mul_l. ring.
+    - intros u Hu.
+      assert (Q : (d * P + u) / P = d) by (symmetry; apply Nat.div_unique with (r := u); lia).
+      assert (R : (d * P + u) mod P = u) by (symmetry; apply Nat.mod_unique with (q := d); lia).
+      rewrite Q, R. reflexivity.
+  Qed.
+
+  (* products along digit lists *)
+  Fixpoint kron_dig (As : list mat) (xs ys : list nat) : C :=
+    match As, xs, ys with
+    | A :: As', x :: xs', y :: ys' => cmul (A x y) (kron_dig As' xs' ys')
+    | _, _, _ => c1
+    end.
+  Definition diag_dig (Bs : list mat) (ys : list nat) : C := kron_dig Bs ys ys.
+
+  Lemma kron_list_digits : forall As dims i j, length As = length dims ->
+    kron_list As dims i j = kron_dig As (digits dims i) (digits dims j).
+  Proof.
+    induction As as [|A As IH]; intros dims i j HL; destruct dims as [|d t]; simpl in HL;
+      try discriminate; [reflexivity|].
+    injection HL as HL. simpl. rewrite (IH t _ _ HL). reflexivity.
+  Qed.
+
+  Lemma kron_dig_weave : forall mask (As : list mat) xs xs' ys,
+    length As = length mask ->
+    length xs = length (select mask mask) -> length xs' = length (select mask mask) ->
+    length ys = length (select (map negb mask) mask) ->
+    kron_dig As (weave mask xs ys) (weave mask xs' ys) =
+    cmul (kron_dig (select mask As) xs xs') (diag_dig (select (map negb mask) As) ys).
+  Proof.
+    induction mask as [|b m IH]; intros As xs xs' ys HA Hx Hx' Hy;
+      destruct As as [|A As]; simpl in HA; try discriminate.
+    - simpl. unfold diag_dig. simpl. ring.
+    - injection HA as HA. destruct b; simpl in Hx, Hx', Hy.
+      + destruct xs as [|x xs]; [discriminate|]. destruct xs' as [|x' xs']; [discriminate|].
+        injection Hx as Hx. injection Hx' as Hx'.
+        simpl. rewrite (IH As xs xs' ys HA Hx Hx' Hy). ring.
+      + destruct ys as [|y ys]; [discriminate|]. injection Hy as Hy.
+        simpl. rewrite (IH As xs xs' ys HA Hx Hx' Hy). unfold diag_dig. simpl. ring.
+  Qed.
+
+  (* sum over all traced multi-indices of the diagonal products = product of traces *)
+  Lemma sum_diag_traces : forall (Bs : list mat) td, length Bs = length td -> allpos td ->
+    sum_upto (prod td) (fun tau => diag_dig Bs (digits td tau)) = tr_list Bs td.
+  Proof.
+    induction Bs as [|B Bs IH]; intros td HL Hp; destruct td as [|d t]; simpl in HL; try discriminate.
+    - unfold diag_dig. simpl. ring.
+    - injection HL as HL. inversion Hp as [|? ? Hd Ht]; subst.
+      pose proof (prod_pos t Ht) as Hpt.
+      change (prod (d :: t)) with (d * prod t).
+      simpl tr_list. unfold mtrace. rewrite <- (IH t HL Ht).
+      etransitivity;
+        [|exact (sum_split (prod t) d (fun x => B x x)
+                           (fun u => diag_dig Bs (digits t u)) Hpt)].
+      apply sum_upto_ext. intros tau _. reflexivity.
+  Qed.
+
+  Theorem ptrace_of_product : forall (As : list mat) dims mask r c,
+    allpos dims -> length As = length dims -> length dims = length mask ->
+    r < prod (kept_dims dims mask) -> c < prod (kept_dims dims mask) ->
+    ptrace_spec C c0 cadd dims mask (kron_list As dims) r c =
+    cmul (tr_list (select (map negb mask) As) (traced_dims dims mask))
+         (kron_list (select mask As) (kept_dims dims mask) r c).
+  Proof.
+    intros As dims mask r c Hp HA HL Hr Hc. unfold ptrace_spec.
+    set (kd := kept_dims dims mask) in *. set (td := traced_dims dims mask).
+    pose proof (allpos_select mask dims Hp) as Pk.
+    pose proof (allpos_select (map negb mask) dims Hp) as Pt.
+    pose proof (digits_valid kd r Pk Hr) as Vr. pose proof (digits_valid kd c Pk Hc) as Vc.
+    assert (Lr : length (digits kd r) = length (select mask mask)).
+    { rewrite (valid_length _ _ Vr). unfold kd, kept_dims. apply select_length_self. exact HL. }
+    assert (Lc : length (digits kd c) = length (select mask mask)).
+    { rewrite (valid_length _ _ Vc). unfold kd, kept_dims. apply select_length_self. exact HL. }
+    assert (LA : length As = length mask) by congruence.
+    rewrite (sum_upto_ext C c0 cadd (prod td) _
+               (fun tau => cmul (kron_dig (select mask As) (digits kd r) (digits kd c))
+                                (diag_dig (select (map negb mask) As) (digits td tau)))).
+    - rewrite sum_mul_l. rewrite sum_diag_traces.
+      + rewrite kron_list_digits.
+        * fold kd. ring.
+        * unfold kept_dims. apply select_length_mask; [exact LA|exact HL].
+      + unfold td, traced_dims. apply select_length_mask; rewrite map_length; [exact LA|exact HL].
+      + exact Pt.
+    - intros tau Htau.
+      pose proof (digits_valid td tau Pt Htau) as Vt.
+      assert (Lt : length (digits td tau) = length (select (map negb mask) mask)).
+      { rewrite (valid_length _ _ Vt). unfold td, traced_dims.
+        apply select_length_mask; rewrite map_length; [exact HL|reflexivity]. }
+      rewrite kron_list_digits by exact HA.
+      unfold merge. fold kd td.
+      rewrite !digits_undigits.
+      + apply kron_dig_weave; assumption.
+      + apply valid_weave; [exact HL|exact Vc|exact Vt].
+      + apply valid_weave; [exact HL|exact Vr|exact Vt].
+  Qed.
+End ProductTheorem.
+
+Lemma ptrace_spec_ext : forall (C : Type) (c0 : C) (cadd : C -> C -> C) dims mask M M' r c,
+  allpos dims -> length dims = length mask ->
+  (forall i j, i < prod dims -> j < prod dims -> M i j = M' i j) ->
+  r < prod (kept_dims dims mask) -> c < prod (kept_dims dims mask) ->
+  ptrace_spec C c0 cadd dims mask M r c = ptrace_spec C c0 cadd dims mask M' r c.
+Proof.
+  intros C c0 cadd dims mask M M' r c Hp HL HM Hr Hc. unfold ptrace_spec.
+  apply sum_upto_ext. intros tau Ht.
+  destruct (merge_range_i2kt dims mask Hp HL r tau Hr Ht) as [A _].
+  destruct (merge_range_i2kt dims mask Hp HL c tau Hc Ht) as [B _].
+  apply HM; assumption.
+Qed.
